@@ -407,17 +407,87 @@ theorem analyzeTrack_no_fuel {song : Song} (hs : SongI16 song) (m : SAMap) (self
 
 /-! ## `analyze_stack` -/
 
-/-- the body of the loop of `analyze_stack` -/
+/-- the analyser-map part of the body of the first loop of `analyze_stack` (`analyzeStackStep`
+without the vector `unused`, which does not influence the map) -/
 def asBody (song : Song) (m : SAMap) (p : Nat × List Event) : Except OErr SAMap :=
   let key : Int := p.1
   let m := if m.any (·.1 == key) then m else m ++ [(key, {})]
   if (getSA m key).baseUsage = 0 then
     match analyzeTrack song (song.tracks.length + 2) m key p.2 0 with
     | .error x => .error x
-    | .ok (m', _) => .ok (if p.1 > 15 then setSA m' key { getSA m' key with baseUsage := 100 } else m')
+    | .ok (m', _) => .ok m'
   else .ok m
 
-theorem analyzeStack_eq (song : Song) : analyzeStack song = song.tracks.foldlM (asBody song) [] := rfl
+theorem step_fst (song : Song) (st : SAMap × List Int) (p : Nat × List Event) :
+    (analyzeStackStep song st p).map Prod.fst = asBody song st.1 p := by
+  unfold analyzeStackStep asBody
+  simp only
+  generalize (if st.1.any (·.1 == (p.1 : Int)) then st.1 else st.1 ++ [((p.1 : Int), ({} : SA))]) = m0
+  by_cases hb : (getSA m0 (p.1 : Int)).baseUsage = 0
+  · rw [if_pos hb, if_pos hb]
+    cases analyzeTrack song (song.tracks.length + 2) m0 (p.1 : Int) p.2 0 with
+    | error x => rfl
+    | ok r => rfl
+  · rw [if_neg hb, if_neg hb]; rfl
+
+theorem foldlM_step_fst (song : Song) : ∀ (l : List (Nat × List Event)) (st : SAMap × List Int),
+    (l.foldlM (analyzeStackStep song) st).map Prod.fst = l.foldlM (asBody song) st.1 := by
+  intro l
+  induction l with
+  | nil => intro st; rfl
+  | cons a r ih =>
+    intro st
+    rw [List.foldlM_cons, List.foldlM_cons, ← step_fst]
+    cases analyzeStackStep song st a with
+    | error x => rfl
+    | ok st' => exact ih st'
+
+/-- `analyze_stack` = the first loop, then the marking of the unused macro tracks -/
+theorem analyzeStack_error {song : Song} {x : OErr} (h : analyzeStack song = .error x) :
+    song.tracks.foldlM (asBody song) [] = .error x := by
+  rw [← foldlM_step_fst song song.tracks ([], [])]
+  unfold analyzeStack at h
+  split at h
+  · rename_i y hy; cases h; rw [hy]; rfl
+  · cases h
+
+theorem analyzeStack_ok {song : Song} {m : SAMap} (h : analyzeStack song = .ok m) :
+    ∃ m0 u, song.tracks.foldlM (analyzeStackStep song) ([], []) = .ok (m0, u) ∧
+      song.tracks.foldlM (asBody song) [] = .ok m0 ∧ m = markUnused m0 u := by
+  unfold analyzeStack at h
+  split at h
+  · cases h
+  · rename_i m0 u hy
+    cases h
+    refine ⟨m0, u, hy, ?_, rfl⟩
+    rw [← foldlM_step_fst song song.tracks ([], []), hy]; rfl
+
+/-- the marking only touches `base_usage` -/
+theorem getSA_markUnused (u : List Int) : ∀ (m : SAMap) (k : Int),
+    getSA (markUnused m u) k = if k ∈ u then { getSA m k with baseUsage := unusedBase } else getSA m k := by
+  induction u with
+  | nil => intro m k; simp [markUnused]
+  | cons id r ih =>
+    intro m k
+    have e : markUnused m (id :: r) = markUnused (setSA m id { getSA m id with baseUsage := unusedBase }) r := rfl
+    rw [e, ih]
+    by_cases hk : k = id
+    · subst hk
+      rw [getSA_setSA_same]
+      simp
+    · rw [getSA_setSA_ne _ _ _ _ hk]
+      simp [hk]
+
+theorem markUnused_parsing (m : SAMap) (u : List Int) (k : Int) : par (markUnused m u) k = par m k := by
+  unfold par; rw [getSA_markUnused]; split <;> rfl
+
+theorem markUnused_eventList (m : SAMap) (u : List Int) (k : Int) :
+    (getSA (markUnused m u) k).eventList = (getSA m k).eventList := by
+  rw [getSA_markUnused]; split <;> rfl
+
+theorem markUnused_maxUsage (m : SAMap) (u : List Int) (k : Int) :
+    (getSA (markUnused m u) k).maxUsage = (getSA m k).maxUsage := by
+  rw [getSA_markUnused]; split <;> rfl
 
 theorem foldlM_no_fuel {α β : Type} (f : β → α → Except OErr β) (P : β → Prop) :
     ∀ (l : List α) (b : β), P b → (∀ a ∈ l, ∀ b, P b → f b a ≠ .error .fuel ∧ ∀ b', f b a = .ok b' → P b') →
@@ -443,7 +513,11 @@ theorem foldlM_no_fuel {α β : Type} (f : β → α → Except OErr β) (P : β
 parameters are `int16_t` values the recursion of `analyze_track` stays within `tracks.length + 2`
 frames. -/
 theorem analyzeStack_no_fuel {song : Song} (hs : SongI16 song) : analyzeStack song ≠ .error .fuel := by
-  rw [analyzeStack_eq]
+  intro hfuel
+  revert hfuel
+  intro hfuel
+  have hfuel := analyzeStack_error hfuel
+  revert hfuel
   apply foldlM_no_fuel (asBody song) (fun m => ∀ k, par m k = false) song.tracks [] (fun k => rfl)
   intro p hp m hm
   unfold asBody
@@ -471,16 +545,8 @@ theorem analyzeStack_no_fuel {song : Song} (hs : SongI16 song) : analyzeStack so
       refine ⟨by simp, ?_⟩
       intro b' hb'
       cases hb'
-      have hp' : ∀ k, par m' k = false := by
-        intro k
-        rw [g2 m' d hx k, hp0]; simp
-      split
-      · intro k
-        rw [par_setSA]
-        split
-        · rename_i hk; rw [← hk]; exact hp' k
-        · exact hp' k
-      · exact hp'
+      intro k
+      rw [g2 m' d hx k, hp0]; simp
   · refine ⟨by simp, ?_⟩
     intro b' hb'
     cases hb'
